@@ -83,6 +83,8 @@ func take_(obj any) shot {
 			s.E[i] = snap.Elem{I: int64(v), F: float64(v)}
 		}
 		return s
+	case []string:
+		return shot{Kind: "strings", R: len(x), Str: strings.Join(x, " | ")}
 	case []bool:
 		s := shot{Kind: "bools", R: len(x), E: make([]snap.Elem, len(x))}
 		for i, v := range x {
